@@ -187,7 +187,14 @@ thread_local! {
     static TL:       Cell<Tl>  = const { Cell::new(Tl::None) };
     static CHAOS:    Cell<u64> = const { Cell::new(0) };
     static CHAOS_LV: Cell<u8>  = const { Cell::new(0) };
+    /// per-thread log of (library site, stamp) hits, when the thread asked for one (`site_log_start`)
+    static SITE_LOG: std::cell::RefCell<Option<Vec<(u32, u64)>>> = const { std::cell::RefCell::new(None) };
 }
+/// starts (or restarts) recording the calling thread's hits of library hook sites together with a stamp of the global logical clock
+pub fn site_log_start() { SITE_LOG.with(|l| *l.borrow_mut() = Some(Vec::new())) }
+/// what was recorded since `site_log_start`; recording goes on
+pub fn site_log_take() -> Vec<(u32, u64)> { SITE_LOG.with(|l| l.borrow_mut().as_mut().map(std::mem::take).unwrap_or_default()) }
+pub fn site_log_stop() { SITE_LOG.with(|l| *l.borrow_mut() = None) }
 
 pub fn my_tid() -> usize {
     match TL.with(|t| t.get()) { Tl::Ser { tid, .. } | Tl::Free { tid, .. } => tid, Tl::None => usize::MAX }
@@ -214,6 +221,7 @@ pub static QUIET_PANICS: AtomicBool = AtomicBool::new(true);
 
 fn hook(site: u32, kind: u32) {
     if (site as usize) < MAX_SITES { SITE_HITS[site as usize].fetch_add(1, Relaxed); }
+    if site < H_BASE { let _ = SITE_LOG.try_with(|l| if let Ok(mut l) = l.try_borrow_mut() { if let Some(v) = l.as_mut() { if v.len() < 4096 { v.push((site, crate::drive::stamp())) } } }); }
     match TL.with(|t| t.get()) {
         Tl::None => {}
         Tl::Ser { sh, tid } => unsafe { &*sh }.on_site(tid, site, kind),
